@@ -331,3 +331,25 @@ Theorem maps_probe_denied_refuted :
   /\ memory_maps Alive deny_all (FContent (k_smaps [ex_m1; ex_m2])) = Val (map spec_row [ex_m1; ex_m2])
   /\ map w_path (map spec_row [ex_m1; ex_m2]) = [bs "/tmp/a b:c"; bs "[anon]"].
 Proof. vm_compute. repeat split. Qed.
+
+
+(* ------------------------------------------------ the three views add up, for every number of mappings *)
+Definition rows_col (i : nat) (rows : list maprow) : Z := fold_right (fun r a => nth i (w_nums r) 0 + a) 0 rows.
+
+(* uss / pss / swap of memory_full_info are the column sums of the rows of memory_maps(grouped=False)
+   (private_clean + private_dirty [+ Private_Hugetlb, which the rows do not carry], pss, swap) *)
+Theorem full_info_vs_rows ms :
+  spec_sums ms =
+  (rows_col 5 (map spec_row ms) + rows_col 6 (map spec_row ms) + sum_over (fun m => kb m FPrivateHugetlb) ms * 1024,
+   rows_col 2 (map spec_row ms), rows_col 9 (map spec_row ms)).
+Proof.
+  unfold spec_sums. f_equal; [f_equal|].
+  - induction ms as [|m ms IH]; [reflexivity|]. cbn [map rows_col fold_right sum_over] in *.
+    change (nth 5 (w_nums (spec_row m)) 0) with (kb m FPrivateClean * 1024).
+    change (nth 6 (w_nums (spec_row m)) 0) with (kb m FPrivateDirty * 1024).
+    unfold private_kb in *. unfold sum_over, rows_col in IH. lia.
+  - induction ms as [|m ms IH]; [reflexivity|]. cbn [map rows_col fold_right sum_over] in *.
+    change (nth 2 (w_nums (spec_row m)) 0) with (kb m FPss * 1024). unfold sum_over, rows_col in IH. lia.
+  - induction ms as [|m ms IH]; [reflexivity|]. cbn [map rows_col fold_right sum_over] in *.
+    change (nth 9 (w_nums (spec_row m)) 0) with (kb m FSwap * 1024). unfold sum_over, rows_col in IH. lia.
+Qed.
